@@ -116,7 +116,9 @@ class ElementFilter(object):
                 i = next(generator)
             except StopIteration:
                 break
-            if i:
+            # An empty NavigableString is falsy, but it is still an
+            # element of the tree.
+            if i is not None:
                 if self.match(i):
                     yield cast("_OneElement", i)
 
